@@ -22,7 +22,9 @@ import (
 	"fmt"
 	"math/rand"
 	"net"
+	"os"
 	"reflect"
+	"runtime/debug"
 	"strings"
 	"sync"
 	"sync/atomic"
@@ -324,6 +326,7 @@ func (c *c14cache) precompute(cases []string, workers int, exec func(string) str
 				func() {
 					defer func() {
 						if r := recover(); r != nil {
+							fmt.Fprintf(os.Stderr, "panic on case %q: %v\n%s\n", cs, r, debug.Stack())
 							c.m.Store(cs, "panic")
 						}
 					}()
@@ -422,7 +425,7 @@ func c14retryGen(r *rand.Rand, thorough bool, emit func(c, cat string)) {
 				add(c14case{fmt.Sprintf("loop=pipeline mode=idle script=p%s,fok obs=ad dl=2400", b), "pipeline-idle-" + b})
 			}
 			add(c14case{"loop=pipeline mode=idle script=pfin,ffin obs=ad dl=2400", "pipeline-idle-fin-ffin"})
-			add(c14case{"loop=pipeline mode=idle script=psil obs=ad dl=260", "pipeline-idle-sil"})
+			add(c14case{"loop=pipeline mode=idle script=psil obs=ad dl=420", "pipeline-idle-sil"})
 		}
 		nSilent, nRandom := 3, 14
 		if thorough {
